@@ -3,7 +3,7 @@
 A: TLC checks on Zernike.tla that the Noll map built from first principles is a bijection onto the modes with
    n <= 12 (j <= 91) with the even-cosine / odd-sine rule, that every radial polynomial is 1 at rho = 1, and exact
    radial orthogonality INT R_n^m R_n'^m rho d rho = delta/(2n+2) for n <= 7 in rational arithmetic.
-B: TLC emits the index table, the exact value of every radial polynomial at 7 rational nodes (more nodes than
+B: TLC emits the index table, the exact value of every radial polynomial at 8 rational nodes (seven in [0, 1], one at 3/2 outside the disk) (more nodes than
    coefficients, so agreement identifies the polynomial) and, for masks from a case file, the exact centroid and rho^2
    of the default coordinates.  lentil's zernike_index, zernike(mask, j, rho, theta) on the node x 16-angle grid (both
    normalisations, sine sign left open), and zernike_coordinates on all masks within 3x3 and seeded masks on
@@ -105,7 +105,7 @@ def run(ctx):
             if not ok:
                 ctx.violation({'kind': 'mode-value', 'j': j if j <= 15 else 'high', 'n': n, 'normalize': normalize},
                               {'j': j, 'n_m': [n, m], 'max_abs_error': float(np.abs(np.abs(z) - np.abs(e)).max())}, case=None)
-            if not normalize and np.abs(z).max() > 1 + 1e-12:
+            if not normalize and np.abs(z[nodes <= 1]).max() > 1 + 1e-12:      # (the bound is a statement about the unit disk)
                 ctx.violation({'kind': 'unnormalised-exceeds-1', 'n': n}, {'j': j, 'max': float(np.abs(z).max())}, case=None)
     if not (np.array_equal(rho, rho0) and np.array_equal(theta, theta0)):
         ctx.violation({'kind': 'caller-coordinates-modified'}, {}, case=None)
@@ -328,7 +328,7 @@ def run(ctx):
                       'open_conventions_not_checked': ['global sign of sine modes'], 'azimuth_convention': 'read from a reference mask, then required of every mask and history'})
     ctx.sample({'noll_table_head_from_TLC': table[:10]}, maxn=1)
     ctx.sample({'coords_case': cases[2], 'expected_by_TLC': exp[2]}, maxn=2)
-    ctx.rule = ('all Noll indices up to 66 [91]; every mode on a 7-node x 16-angle grid in both normalisations; every non-empty mask within '
+    ctx.rule = ('all Noll indices up to 66 [91]; every mode on a 8-node (seven in [0, 1] and 3/2) x 16-angle grid in both normalisations; every non-empty mask within '
                 '3x3 [sampled in quick] plus seeded blobs on arrays 2..9 x 2..8; distinct by (index | mode, flag | mask)')
     ctx.assumptions += ['azimuthal factors cos/sin and sqrt of the normalisation constant are evaluated in float64 from the integers TLC emits',
                         'orthonormality of the implementation is a numeric leaf (Gauss-Legendre x uniform-angle quadrature, exact for these degrees)']
